@@ -13,7 +13,7 @@ import random
 import re
 
 from . import common, irval, viewspec as vs
-from .poly import Poly as P, POS, NEG, NONZERO, NONNEG, ANY, ZERO
+from .poly import Poly as P, POS, NEG, NONZERO, NONNEG, NONPOS, ANY, ZERO
 
 PRELUDE = r"""
 #include <boost/multi/array.hpp>
@@ -122,7 +122,7 @@ OPS = [
        cases=lambda D, zb: [{"z0": A("c") * A("m")}], signs={"c": POS, "m": POS}, maxd=3),
     Op("halved", 1, "v.halved()", [], lambda v, a, c: vs.partitioned(v, P.const(2), A("m")),
        cases=lambda D, zb: [{"z0": 2 * A("m")}], signs={"m": POS}, maxd=3),
-    Op("flatted", 2, "v.flatted()", [], lambda v, a, c: vs.flatted(v), cases=lambda D, zb: [{"s0": A("z1") * A("s1")}]),
+    Op("flatted", 2, "v.flatted()", [], lambda v, a, c: vs.flatted(v), cases=lambda D, zb: [{"s0": A("z1") * A("s1")}, {"z0": P.const(1), "__name": "one row, any stride"}]),
     Op("broadcasted", 1, "v.broadcasted()", [], lambda v, a, c: vs.broadcasted(v), addr_only=True, maxd=3),
     Op("call_ij", 2, "v(i, j)", ["i", "j"], lambda v, a, c: vs.index(vs.index(v, a["i"]), a["j"])),
     Op("call_rng_rng", 2, "v(multi::irange{a, a + w}, multi::irange{c, c + u})", ["a", "w", "c", "u"],
@@ -245,6 +245,67 @@ def concrete_witness(got, want, signs, seed=0, tries=400):
     return None
 
 
+def sample_env(names, signs, rnd):
+    env = {}
+    for s in names:
+        cls = signs.get(s, ANY)
+        if cls == POS:
+            env[s] = rnd.randint(1, 5)
+        elif cls == NEG:
+            env[s] = -rnd.randint(1, 5)
+        elif cls == NONNEG:
+            env[s] = rnd.randint(0, 4)
+        elif cls == NONPOS:
+            env[s] = -rnd.randint(0, 4)
+        elif cls == NONZERO:
+            env[s] = rnd.choice([-3, -2, -1, 1, 2, 3])
+        elif cls == ZERO:
+            env[s] = 0
+        else:
+            env[s] = rnd.randint(-4, 6)
+    return env
+
+
+def concrete_disagreement(ev, fn, args, signs, wants, seed=0, tries=80):
+    """When the symbolic evaluation of a case is inconclusive (the library's control flow depends on values the case does not fix), the same IR is
+    evaluated on concrete members of the case class (all symbols but the base / out addresses replaced by small integers of their sign class) and
+    compared with the specification at the same member.  Returns a witness dict for the first disagreement, else None.
+    wants: {byte offset in the out array: Poly}."""
+    rnd = random.Random(seed)
+    names = set()
+    for a in list(args) + list(wants.values()):
+        if isinstance(a, P):
+            for sy in a.symbols():
+                for t in re.findall(r"[A-Za-z_]\w*", sy):
+                    names.add(t)
+    names -= {"base", "out", "div", "ite", "float"}
+    names = sorted(names)
+    decided = 0
+    for _ in range(tries):
+        env = sample_env(names, signs, rnd)
+        penv = {k: P.const(v) for k, v in env.items()}
+        try:
+            cargs = [a.subst(penv) if isinstance(a, P) else a for a in args]
+            ev.run(fn, cargs, signs)
+        except (irval.Inconclusive, irval.AssertFires, ZeroDivisionError, KeyError):
+            continue
+        decided += 1
+        st = ev.stores
+        for off, w in wants.items():
+            g = st.get(off)
+            if g is None:
+                continue
+            try:
+                wv = w.subst(penv)
+            except Exception:
+                continue
+            if any(sy.startswith("div[") or sy.startswith("ite[") for sy in (g.symbols() | wv.symbols())):
+                continue
+            if g != wv:
+                return dict(assignment=env, observable_offset=off, got=repr(g), want=repr(wv), members_evaluated=decided)
+    return None
+
+
 class ViewRun:
     """compile + evaluate a set of (op, D) in one mode; yields obligations into a Report"""
 
@@ -291,7 +352,22 @@ class ViewRun:
                 self.ev.run(fname(op, D, self.zb), args, signs)
                 st = self.ev.stores
             except irval.Inconclusive as e:
-                rep.inconclusive("%s.addr(%s)" % (fam_prefix, tag), fam_prefix + ".addr", str(e))
+                wants = {0: (want_view.addr(idx[:Dp])) * ELEM}
+                if not (op.addr_only or Dp == 0):
+                    wants[8] = want_view.dims[0].z
+                    wants[16] = want_view.num_elements()
+                    for k, d in enumerate(want_view.dims):
+                        for j, w in enumerate([d.f, d.z, d.s, d.s, d.f * d.s, d.z * d.s]):
+                            wants[8 * (4 + 6 * k + j)] = w
+                wit = concrete_disagreement(self.ev, fname(op, D, self.zb), args, signs, wants, common.seed_from_env())
+                if wit is not None:
+                    rep.violated("%s.addr(%s)" % (fam_prefix, tag), fam_prefix + ".addr",
+                                 "%s (D=%d): the library's result depends on values the case does not fix (%s) and disagrees with the specification on a concrete "
+                                 "member of the case class: observable at out+%d is %s, specification prescribes %s, for %s"
+                                 % (op.expr, D, str(e)[:120], wit["observable_offset"], wit["got"], wit["want"], wit["assignment"]),
+                                 dict(witness=wit, operation=op.expr, D=D))
+                else:
+                    rep.inconclusive("%s.addr(%s)" % (fam_prefix, tag), fam_prefix + ".addr", str(e))
                 continue
             except irval.AssertFires as e:
                 rep.violated("%s.assert(%s)" % (fam_prefix, tag), fam_prefix + ".assert", str(e))
@@ -406,7 +482,23 @@ class CustomRun:
                     self.ev.run(self.fn(i), args, signs)
                     st = self.ev.stores
                 except irval.Inconclusive as e:
-                    rep.inconclusive("%s%s" % (it.key, ctag), it.family, str(e))
+                    cw = {}
+                    for k, w in wants.items():
+                        if isinstance(k, tuple):
+                            k = k[0]
+                        if isinstance(w, tuple):
+                            w = w[0]
+                        if isinstance(w, int):
+                            w = P.const(w)
+                        cw[8 * k] = w.subst(env)
+                    wit = concrete_disagreement(self.ev, self.fn(i), args, signs, cw, common.seed_from_env())
+                    if wit is not None:
+                        rep.violated("%s%s" % (it.key, ctag), it.family,
+                                     "the library's result depends on values the case does not fix (%s) and disagrees with the specification on a concrete member of "
+                                     "the case class: observable at out+%d is %s, specification prescribes %s, for %s"
+                                     % (str(e)[:120], wit["observable_offset"], wit["got"], wit["want"], wit["assignment"]), dict(witness=wit, body=it.body))
+                    else:
+                        rep.inconclusive("%s%s" % (it.key, ctag), it.family, str(e))
                     continue
                 except irval.AssertFires as e:
                     rep.violated("%s%s.assert" % (it.key, ctag), it.family, str(e), dict(body=it.body))
